@@ -535,6 +535,9 @@ def plan_xo(pid, tr, sd):
             # zero-length targets (falsy objects) and bound union-reference objects as the value
             hs.append([("bind_existing", 0, 1, "empty"), ("bind_value", 1, 0, "empty"), ("bind_foreign", 0, 0, "empty"), ("grow",)])
             hs.append([("bind_existing", 1, 0, "empty"), ("bind_uref_instance", 0, 0), ("bind_uref_instance", 1, 1), ("bind_null", 0)])
+            # plain data shaped exactly like the current referent (right after construction, and after binding an existing object)
+            hs.append([("bind_value", 0, 0, "same"), ("bind_existing", 0, 0), ("bind_value", 0, 0, "same"), ("grow",)])
+            hs.append([("bind_existing", 1, 1), ("bind_value", 1, 1, "same"), ("bind_value", 0, 0, "same")])
             if tr == "thorough":
                 hs += [[("bind_existing", k, 1), ("bind_foreign", k + 1, 0), ("alloc_until_growth",)] for k in range(2)]
                 hs += [[("bind_value", k, k, "empty"), ("bind_uref_instance", k, 1 - k), ("grow",), ("bind_existing", k + 1, k, "empty")] for k in range(2)]
